@@ -132,7 +132,7 @@ theorem fnorm_cons_adj (x y : Node) (ys : List Node) (h : fnorm (x :: y :: ys) =
 theorem Node.norm_elem (t : TypeId) (a : Attrs) (m : Marks) (k : List Node) :
     (Node.elem t a m k).norm = fnorm k := by simp [Node.norm, fnorm]
 
-theorem eq_nil_of_fsize_zero (k : List Node) (h : fnorm k = true) (hz : fsize k = 0) : k = [] := by
+theorem eq_nil_of_fnorm_fsize_zero (k : List Node) (h : fnorm k = true) (hz : fsize k = 0) : k = [] := by
   cases k with
   | nil => rfl
   | cons x xs =>
@@ -272,7 +272,7 @@ theorem eq_of_diffStart_none (a b : List Node) (pos : Nat) (ha : fnorm a = true)
       · rename_i hz
         have hz1 : fsize k = 0 := by omega
         have hz2 : fsize k' = 0 := by omega
-        rw [eq_nil_of_fsize_zero k hka hz1, eq_nil_of_fsize_zero k' hkb hz2]
+        rw [eq_nil_of_fnorm_fsize_zero k hka hz1, eq_nil_of_fnorm_fsize_zero k' hkb hz2]
     rw [ih2 (fnorm_cons _ _ ha).2 (fnorm_cons _ _ hb).2 h, hm.1.1, hm.1.2, hm.2, hk]
   | case9 x xs y ys pos hm h1 h2 ih =>
     have hxy := (diffStart_case9 x y (by simpa using hm) h1 h2).1
@@ -386,7 +386,7 @@ theorem diffStart_lcp_gen (a b : List Node) (pos q : Nat) (R R' : List MTok)
       · rename_i hz
         have hz1 : fsize k = 0 := by omega
         have hz2 : fsize k' = 0 := by omega
-        rw [eq_nil_of_fsize_zero k hka hz1, eq_nil_of_fsize_zero k' hkb hz2]
+        rw [eq_nil_of_fnorm_fsize_zero k hka hz1, eq_nil_of_fnorm_fsize_zero k' hkb hz2]
     subst hk
     have := ih2 q R R' (fnorm_cons _ _ ha).2 (fnorm_cons _ _ hb).2 hR hR' h
     simp only [fmtoks_cons, List.append_assoc]
